@@ -258,6 +258,12 @@ pub fn tai_count_any() -> BS<i128> {
             let z = match s { S_ET | S_TDB => j2000_ns(), S_UTC => 0, _ => zero_tai_ns(s) };
             z + off
         }).boxed()),
+        // the mirror image of each scale's zero about 1900 (a reading of -offset: where sign slips and
+        // "equal up to sign" comparisons show)
+        (1, (0usize..9, near_offset()).prop_map(|(s, off)| {
+            let z = match s { S_ET | S_TDB => j2000_ns(), S_UTC => 0, _ => zero_tai_ns(s) };
+            -z + off
+        }).boxed()),
         // a day of years 0001-9999 with time-of-day classes
         (4, ns1900_0001_9999()),
         // 1960-1972, before 1960
